@@ -65,6 +65,7 @@ func runC10(cfg runCfg) error {
 		name := fmt.Sprintf("c10-%d-%d", cfg.seed, ci)
 		// current answer of each service
 		cur := map[string]string{} // url -> kind token
+		lastValid := map[string]string{}
 		var mu sync.Mutex
 		fed := &federation{}
 		for i, u := range urls {
@@ -111,12 +112,36 @@ func runC10(cfg runCfg) error {
 		var hist []string
 		list := append([]string{}, initial...)
 		for e := 0; e < nev; e++ {
-			// choose outcomes for every known url (services not in the list are simply not polled)
+			// choose outcomes for every known url (services not in the list are simply not polled).
+			// Structured events: most steps change at most one service, so that quiet polls, single failures and
+			// recoveries to the very same schema text (no other service changing in that poll) are common.
 			var outs []string
+			mode := r.Intn(10) // 0-2 random for all, 3-4 quiet, 5-7 recover one, 8-9 break one
+			pick := urls[r.Intn(len(urls))]
 			for _, u := range urls {
-				k := pollKinds[r.Intn(len(pollKinds))]
-				if r.Intn(3) == 0 && cur[u] != "" {
-					k = cur[u] // unchanged
+				k := cur[u]
+				switch {
+				case mode <= 2 || k == "":
+					k = pollKinds[r.Intn(len(pollKinds))]
+					if r.Intn(3) == 0 && cur[u] != "" {
+						k = cur[u]
+					}
+				case mode <= 4:
+				case mode <= 7:
+					if u == pick || (k != "v1" && k != "v2" && k != "v3" && k != "vc" && r.Intn(2) == 0) {
+						if lv, ok := lastValid[u]; ok && r.Intn(4) > 0 {
+							k = lv
+						} else {
+							k = []string{"v1", "v2", "v3"}[r.Intn(3)]
+						}
+					}
+				default:
+					if u == pick {
+						k = []string{"syntax", "rule", "down", "vc"}[r.Intn(4)]
+					}
+				}
+				if k == "v1" || k == "v2" || k == "v3" {
+					lastValid[u] = k
 				}
 				mu.Lock()
 				cur[u] = k
@@ -127,7 +152,7 @@ func runC10(cfg runCfg) error {
 				}
 				outs = append(outs, cpair(cstr(u), o))
 			}
-			isSet := r.Intn(4) == 0
+			isSet := r.Intn(6) == 0
 			if isSet {
 				var nl []string
 				for _, u := range urls {
